@@ -4,6 +4,7 @@ file (U) and the property statements are evaluated directly, in exact rational a
 import math, re
 from fractions import Fraction as F
 import impl, reader, refprinter, arcs
+import genprog
 from genprog import inside
 from octoprint.util.comm import gcode_and_subcode_for_cmd
 
@@ -108,6 +109,8 @@ def simulate(prog, stop_on_exception=True):
         st.U1, st.F1 = U.copy(), P.copy()
         st.enabled1 = enabled
         st.excluding1 = h.state.excluding
+        pos = h.state.position
+        st.T1 = (pos.X_AXIS.current, pos.Y_AXIS.current, pos.Z_AXIS.current, pos.E_AXIS.current)   # what the filter tracks (native)
         st.tested = tested_points(st.U0, st.U1, ev[1]) if ev[0] == 'cmd' else None
         steps.append(st)
         if st.exc is not None and stop_on_exception:
@@ -306,6 +309,30 @@ def check_C02(prog, steps):
 def touches_region(steps):
     return any(st.ev[0] == 'cmd' and st.tested not in (None, 'unsupported') and st.enabled0 and any_inside(st.regions, st.tested)
                for st in steps)
+
+
+def stale_tracking_witness(prog, steps, size=F(3, 10)):
+    """Search step for C02 / C08: where the position the filter tracks differs from the file's own, build a program whose
+    only region sits on the stale tracked point, clear of the real path.  Returns that program or None; whether it really
+    violates the property is decided by running it."""
+    real = []
+    for st in steps:
+        if st.ev[0] == 'cmd' and st.tested not in (None, 'unsupported'):
+            real += list(st.tested)
+    for st in steps:
+        if st.ev[0] != 'cmd' or st.T1[0] is None or st.T1[1] is None:
+            continue
+        tx, ty = st.T1[0], st.T1[1]
+        if abs(tx - float(st.U1.x)) > 1e-4 or abs(ty - float(st.U1.y)) > 1e-4:
+            cx, cy = F('%.4f' % tx), F('%.4f' % ty)
+            r = ('rect', 'stale', cx - size, cy - size, cx + size, cy + size)
+            if all(abs(genprog.region_dist(r, x, y)) > 0.05 and not inside(r, x, y) for (x, y) in real):
+                q = dict(prog)
+                q['regions'] = [r]
+                q['events'] = [e for e in prog['events'] if e[0] != 'add']
+                return q
+            return None
+    return None
 
 
 # ------------------------------------------------------------------------------------------ C14
